@@ -2,7 +2,9 @@ package persistence
 
 import (
 	"context"
+	"encoding/base64"
 	"errors"
+	"github.com/oauth2-proxy/oauth2-proxy/v7/pkg/encryption"
 	"net/http"
 	"net/url"
 	"time"
@@ -274,6 +276,16 @@ func vh_C10_manager_history() {
 	set0 := verifSetCookies(rw0.Header())
 	verifAssume(len(set0) == 1)
 	c0 := set0[0]
+	if ndBool("browser-holds-a-pre-v2-ticket-cookie") {
+		// the same ticket in the cookie encoding of old releases: {id}.{secret}
+		t0, derr := decodeTicketFromRequest(vReq(c0), opts)
+		verifAssume(derr == nil && t0 != nil)
+		legacy := t0.id + "." + base64.RawURLEncoding.EncodeToString(t0.secret)
+		signed, serr := encryption.SignedValue(opts.Secret, opts.Name, []byte(legacy), *s0.CreatedAt)
+		verifAssume(serr == nil)
+		c0 = &http.Cookie{Name: opts.Name, Value: signed}
+		verifReach("legacy-ticket")
+	}
 	s1 := mk("s1")
 	rw1 := &vRW{}
 	carried := ndBool("second-save-carries-the-cookie")
@@ -298,6 +310,10 @@ func vh_C10_manager_history() {
 	}
 	if carried {
 		verifReach("ticket-carried")
+		// a concurrent request of the same browser still holds the earlier cookie: what it reloads
+		// (under the refresh lock) is the session just saved, not the one it started from
+		peer, perr := m.Load(vReq(c0))
+		verifAssert("C12.history.peer-reload-sees-the-saved-session", perr == nil && peer != nil && peer.AccessToken == s1.AccessToken && peer.RefreshToken == s1.RefreshToken)
 		rw2 := &vRW{}
 		verifAssert("C11.history.sign-out", m.Clear(rw2, vReq(c1)) == nil)
 		for _, c := range []*http.Cookie{c0, c1} {
